@@ -8,7 +8,7 @@ ASSUMPTIONS = conn.COMMON_ASSUMPTIONS + ["A-LOOP(timers): call_at callbacks run 
 
 
 def targets(eng):
-    return conn.targets_for(eng, ["__init__", "_async_send_keep_alive", "_async_pong_not_received", "process_packet", "lemma:keepalive-window"], ["C10"])
+    return conn.targets_for(eng, ["__init__", "send_messages", "_async_send_keep_alive", "_async_pong_not_received", "process_packet", "lemma:keepalive-window"], ["C10"])
 
 
 # built-in mutants of the real source text for the thorough tier's self-check (each must be refuted by a named obligation)
